@@ -138,9 +138,20 @@ func freePort() int {
 	}
 }
 
-// listenHost remembers under which host a listen port was configured ("" = none), so that whoever connects to it
-// uses an address the listener can be reached at.
-var listenHost sync.Map
+// hostFor says under which host a loopback port is configured as a listener ("" = none): a function of the port alone,
+// so that the router that listens on it (also after a restart on the same port) and whoever is configured to connect
+// to it - whichever configuration is generated first - agree.
+func hostFor(port int) string {
+	switch (uint32(port) * 2654435761 >> 9) % 4 {
+	case 0:
+		return "127.0.0.1"
+	case 1:
+		if hasV6Loopback() {
+			return "[::1]"
+		}
+	}
+	return ""
+}
 
 var v6Once sync.Once
 var v6OK bool
@@ -211,19 +222,7 @@ func genConfig(rng *rand.Rand, idx int, api bool, connectTo int, stateDir string
 		}
 		ports = append(ports, p)
 		// every way of naming a free loopback port: no host (all interfaces), the IPv4 loopback, the IPv6 loopback
-		host := ""
-		switch rng.Intn(4) {
-		case 0:
-			host = "127.0.0.1"
-		case 1:
-			if hasV6Loopback() {
-				host = "[::1]"
-			}
-		}
-		if h, ok := listenHost.Load(p); ok && fixedPorts != nil {
-			host = h.(string) // a router that starts again on its port keeps the way it names it: its peers' connect entries stay
-		}
-		listenHost.Store(p, host)
+		host := hostFor(p)
 		if host == "" {
 			st.Router.Listen = append(st.Router.Listen, fmt.Sprintf("tcp:%d", p))
 		} else {
@@ -231,11 +230,12 @@ func genConfig(rng *rand.Rand, idx int, api bool, connectTo int, stateDir string
 		}
 	}
 	if connectTo != 0 {
-		host := "127.0.0.1"
-		if h, ok := listenHost.Load(connectTo); ok && h.(string) != "" {
-			host = h.(string)
-		} else if hasV6Loopback() && rng.Intn(3) == 0 {
-			host = "[::1]" // a listener without a host listens on both loopbacks
+		host := hostFor(connectTo)
+		if host == "" {
+			host = "127.0.0.1"
+			if hasV6Loopback() && rng.Intn(3) == 0 {
+				host = "[::1]" // a listener without a host listens on both loopbacks
+			}
 		}
 		st.Router.Connect = []string{fmt.Sprintf("tcp://%s:%d", host, connectTo)}
 	}
